@@ -1223,6 +1223,22 @@ fn witness_corpus() -> Vec<(&'static str, String)> {
         v.push(("world", format!("{{ Thing {{ {} }} }}", nest(k, "next", "id @output"))));
     }
     v.push(("world", format!("{{ Thing {{ id @filter(op: \"one_of\", value: {}) @output }} }}", "[".repeat(100) + &"]".repeat(100))));
+    // one variable shared by two filters (type meets): every pair of operators on a nullable / non-nullable
+    // property pair of the same base type, in both orders, on one vertex and across a fold
+    {
+        let ops = ["=", "!=", "<", ">=", "one_of", "not_one_of", "has_prefix", "is_null"];
+        let pairs = [("score", "id"), ("name", "label")];
+        for (nullable, nonnull) in pairs {
+            for o1 in ops {
+                for o2 in ops {
+                    let f = |op: &str| if op == "is_null" { "@filter(op: \"is_null\")".to_string() } else { format!("@filter(op: \"{op}\", value: [\"$x\"])") };
+                    v.push(("world", format!("{{ Item {{ {nullable} {} {nonnull} {} @output }} }}", f(o1), f(o2))));
+                    v.push(("world", format!("{{ Item {{ {nonnull} {} {nullable} {} @output }} }}", f(o1), f(o2))));
+                    v.push(("world", format!("{{ Item {{ {nullable} {} link @fold {{ ... on Item {{ {nonnull} {} @output }} }} }} }}", f(o1), f(o2))));
+                }
+            }
+        }
+    }
     v.push(("world", "{ Thing { flag @filter(op: \"<\", value: [\"$x\"]) @output } }".to_string()));
     v.push(("world", "{ Thing { flag @filter(op: \">\", value: [\"$x\"]) id @output } }".to_string()));
     v.push(("world", "{ Thing(lo: FOO) { id @output } }".to_string()));
